@@ -107,7 +107,7 @@ template <class T> static void Run(vf::BS & bs, Ctx & cx)
                    // which of several equal items survives is not documented: take the survivor's identity from the queue when values agree
                    if (q.GetNumItems() == d.size()) for (uint32 i=0; i<d.size(); i++) if (q[i] == d[i]) d[i] = q[i];} break;
          case 31: {name="copy-ctor"; Queue<T> c(q); Compare(c, d, "copy-ctor");} break;
-         case 32: {name="InsertItemsAt(self)"; if (d.size() > 2000) break; cx.aliasOp = true; const status_t s = q.InsertItemsAt(idx, q); {std::deque<T> c = d; if (s.IsError()) vf::Fail("InsertItemsAt(self) failed"); d.insert(d.begin()+muscleMin((size_t)idx, d.size()), c.begin(), c.end());}} break;
+         case 32: {name="InsertItemsAt(self, sub-range)"; if (d.size() > 2000) break; cx.aliasOp = true; const uint32 st = (v&1) ? 0 : (uint32)(bs.u8()%(uint32)(d.size()+2)); const uint32 cnt = (v&2) ? MUSCLE_NO_LIMIT : (uint32)(bs.u8()%6); a1 = st; a2 = cnt; const status_t s = q.InsertItemsAt(idx, q, st, cnt); {std::deque<T> c; for (uint32 i=st; (i<d.size())&&((i-st)<cnt); i++) c.push_back(d[i]); if (s.IsError()) vf::Fail("InsertItemsAt(self) failed"); d.insert(d.begin()+muscleMin((size_t)idx, d.size()), c.begin(), c.end());}} break;
          case 33: {name="GetWithDefault/IsIndexValid/GetItemAt"; if (q.IsIndexValid(idx) != (idx < d.size())) vf::Fail("IsIndexValid"); const T r = q.GetWithDefault(idx, Mk<T>(99,99)); if (!Same(r, (idx<d.size())?d[idx]:Mk<T>(99,99))) vf::Fail("GetWithDefault"); T g = Mk<T>(-1,-1); const status_t s = q.GetItemAt(idx, g); if (s.IsOK() != (idx < d.size())) vf::Fail("GetItemAt status"); if ((idx < d.size())&&(!Same(g, d[idx]))) vf::Fail("GetItemAt value"); if ((q.GetItemAt(idx) != NULL) != (idx < d.size())) vf::Fail("GetItemAt pointer");} break;
          case 34: {name="AddTail(q[i]) alias"; if (idx < d.size()) {cx.aliasOp = true; const T c = d[idx]; if (q.AddTail(q[idx]).IsError()) vf::Fail("AddTail(alias) failed"); d.push_back(c);}} break;
          case 35: {name="AddHead(q[i]) alias"; if (idx < d.size()) {cx.aliasOp = true; const T c = d[idx]; if (q.AddHead(q[idx]).IsError()) vf::Fail("AddHead(alias) failed"); d.push_front(c);}} break;
